@@ -32,6 +32,11 @@ CHECKS = {
         note="Trusted: z3, shadows (validated natively per path); sum_durations in exact arithmetic; filter_keyvals_regex outside the claim (C regex engine). N<=3..4 quick, N<=4..6 thorough.",
         ref="§7 C16",
     ),
+    "C19": dict(
+        text="The real Rule / categorize / tag / _pick_category are executed with the regex engine replaced by an arbitrary symbolic boolean per (pattern, value), symbolic category depths, select_keys variants, empty/non-empty regex and ignore_case; z3 discharges on every path that the chosen category is the deepest match with the later rule winning ties (Uncategorized iff nothing matches), that tags are exactly the matching ones in rule order, that IGNORECASE is passed iff asked, and the frame (count, order, instants, durations, ids, unrelated keys). split_url_events / simplify_string: frame + urlparse field mapping on a concrete pool with symbolic instants.",
+        note="Trusted: z3, shadows (validated natively per path with real regexes realising the model's booleans). What a regex matches, URL parsing and the title regexes are C / stdlib code outside the claim.",
+        ref="§7 C19",
+    ),
 }
 
 NOT_YET = "check not built yet (work in progress; see DESIGN.md §7 for the plan)"
